@@ -20,7 +20,8 @@ MAX_READS = 500
 
 GARBAGE_ALPHABET = "abcdefghijklmnopqrstuvwxyzABCDEFGHIJKLMNOPQRSTUVWXYZ0123456789-_.,;!?*+=()[]{}<>|\\'\"@#$%^&~`"
 NONASCII = ["é", "Ño", "нет", "高", "üß", "Ω", "\U0001F600", "àè", "Δx"]
-PADS = [" ", "  ", "\t", "\r", " \t ", "\x0b", "\x0c", " ", " ", "\x1c", "\x85"]
+# no "\r": a text-mode stdin (universal newlines) can never deliver it inside a line
+PADS = [" ", "  ", "\t", " \t ", "\x0b", "\x0c", "\u00a0", "\u2003", "\x1c", "\x85"]
 EXOTIC = {"I": "ı", "i": "ı", "S": "ſ", "s": "ſ", "K": "K", "k": "K"}
 
 
